@@ -402,15 +402,17 @@ where
         mut self: Pin<&mut Self>,
         cx: &mut Context<'_>,
     ) -> Result<Poll<()>, DispatchError> {
-        if self.as_mut().poll_flush(cx)?.is_pending() {
-            return Ok(Poll::Pending);
-        }
-
+        // start the timer before flushing: a peer that stops reading the early response must not
+        // keep the lingering connection alive past the disconnect timeout
         if !self.as_mut().ensure_linger_timer(cx) {
             let this = self.as_mut().project();
             this.flags.remove(Flags::LINGER);
             this.flags.insert(Flags::SHUTDOWN);
             return Ok(Poll::Ready(()));
+        }
+
+        if self.as_mut().poll_flush(cx)?.is_pending() {
+            return Ok(Poll::Pending);
         }
 
         loop {
